@@ -19,7 +19,7 @@ RULE = (
     "0-3 times, inside % if / % for; rendered with buffer_filters on/off. distinct = by template text; "
     "non-trivial = the model recorded a call with content plus at least one of buffered/filtered/capture/concat."
 )
-RULE += " added since: depth-4 documents in the quick tier, second keyword-only parameter, out-of-order keyword arguments collected by **kw, try/finally nodes, literal+value mixtures joined by Python +, call bodies with keyword-only and ** body arguments. nested defs whose default reads a context variable mentioned nowhere else. a decorator whose wrapper adds a keyword argument; fixed scenarios on who sees `caller` (callee, defs called from it, from the call body, inside the call's argument list)."
+RULE += " added since: depth-4 documents in the quick tier, second keyword-only parameter, out-of-order keyword arguments collected by **kw, try/finally nodes, literal+value mixtures joined by Python +, call bodies with keyword-only and ** body arguments. nested defs whose default reads a context variable mentioned nowhere else. a decorator whose wrapper adds a keyword argument; fixed scenarios on who sees `caller` (callee, defs called from it, from the call body, inside the call's argument list). nested defs named like a later top-level def."
 ASSUMPTIONS = [
     "reference interpreter mk/tdoc.py (rules listed in DESIGN.md appendix A)",
     "capture() of a buffered def and decorators on buffered defs are not generated (not covered by the statement)",
